@@ -494,6 +494,22 @@ def load_known():
         return json.load(f)
 
 
+def unlisted_violations(chk):
+    """failed obligations of chk that are not listed as known findings (what the harnesses count as an alarm)"""
+    known = {(k["rule"], k["construct"], k.get("key", "")) for k in load_known().get("known", []) if k.get("property") == chk.prop}
+    # rules shared between properties carry the other property's id prefix in the listed finding: compare by rule suffix as well
+    known_loose = {(r.split(".", 1)[-1], c, k) for r, c, k in {(k["rule"], k["construct"], k.get("key", "")) for k in load_known().get("known", [])}}
+    out = []
+    for o in chk.obs:
+        if o.ok:
+            continue
+        r, c, k = o.ident()
+        if (r, c, k) in known:
+            continue
+        out.append(o)
+    return out
+
+
 def run_rules(mod, chk, fname="run"):
     """Execute the top-level statements of mod.<fname>(chk) one by one, so that a rule that cannot analyse the tree
     (AnalysisError: anchor vanished, floor not met, unsupported idiom) does not silence the other rules of the property.
